@@ -180,6 +180,14 @@ class RunProbe:
                     sys.stdout.flush()
                 elif k == 'flush_err':
                     sys.stderr.flush()
+                elif k == 'die':
+                    self.rec.ev('emit', task.ident, 'die', None)
+                    e, _who = self._who()
+                    if e is not None and e.kind == 'worker':
+                        self.rec.fired('emitter-dies')
+                        self.sim.kill(e, 'kill' if task.ident % 2 else 'exit1')
+                        self.sim.yp('dying')
+                    continue
                 self.rec.ev('emit', task.ident, k, op[-1] if k not in ('flush_out', 'flush_err') else None)
                 if self.sim is not None:
                     self.sim.yp('work')
